@@ -142,4 +142,10 @@ theorem required_positional_listed (c : Cmd) (u : UInfo) (inj : IdxInj c) (requi
           · cases hx
           · exact hx
 
+/-- non-vacuity: the example level of `C12Usage.lean` (`--out <o>`, a hidden flag, positionals 1 and 2) has unique indices -/
+example : IdxInj exCmd := by
+  intro a ha b hb i h1 h2
+  simp only [exCmd, Cmd.args, List.mem_cons, List.not_mem_nil, or_false] at ha hb
+  rcases ha with rfl | rfl | rfl | rfl <;> rcases hb with rfl | rfl | rfl | rfl <;> simp_all <;> omega
+
 end Clap.C12U
